@@ -7,10 +7,12 @@
 (* names at which the goroutine is parked.  Property-level statements of   *)
 (* C09 are the invariants / temporal formulas at the end.                  *)
 (*                                                                         *)
-(* Guarded = TRUE  : repaired wait protocol (idle worker re-checks queue   *)
-(*                   and kill counter under the condition's lock; Signal   *)
-(*                   and the shrinking Broadcast are sent under that lock) *)
-(* Guarded = FALSE : the protocol as found (unconditional Cond.Wait)       *)
+(* Variant "code": the repaired protocol - an idle worker re-checks queue  *)
+(* and kill counter under the condition's lock, Signal and the shrinking   *)
+(* Broadcast are sent under that lock; a worker which takes a stop request *)
+(* leaves the worker map in the same critical section and a resize cancels *)
+(* what is left of an earlier stop request.  The other variants are the    *)
+(* protocol as found (see Guarded / ResizeFix below).                      *)
 (***************************************************************************)
 EXTENDS Integers, Sequences, FiniteSets, TLC
 
@@ -19,8 +21,13 @@ CONSTANTS MaxW,       \* worker ids are 1..MaxW, handed out in order
           Children,   \* [Tasks -> Seq(Tasks)] tasks a task submits while it runs
           Clients,    \* set of client names
           Script,     \* [Clients -> Seq(op)]
-          Guarded,
+          Variant,    \* "code" | "found-wakeup" | "found-resize"
           RecordHist  \* keep the behaviour in hist (simulation / export only)
+
+\* found-wakeup: unconditional Cond.Wait (lost wake-up).  found-resize: a resize neither cancels a
+\* pending stop request of an earlier resize nor sees workers which already decided to stop.
+Guarded == Variant # "found-wakeup"
+ResizeFix == Variant # "found-resize"
 
 W == 1..MaxW
 
@@ -73,10 +80,11 @@ BroadcastEffect == /\ woken' = woken \cup SeqToSet(cw) /\ cw' = <<>>
 W_Head(w) ==
   /\ wpc[w] = "head"
   /\ IF kill > 0 THEN /\ kill' = kill - 1 /\ wdec' = [wdec EXCEPT ![w] = "die"]
-     ELSE /\ kill' = kill
+                      /\ wmap' = IF ResizeFix THEN wmap \ {w} ELSE wmap
+     ELSE /\ kill' = kill /\ UNCHANGED wmap
           /\ wdec' = [wdec EXCEPT ![w] = IF kill = -1 THEN "drain" ELSE "idle"]
   /\ wpc' = [wpc EXCEPT ![w] = "kill"]
-  /\ UNCHANGED <<queue, wmap, idle, cw, woken, nextW, wgot, wtask, wsub, ci, cst, csamp, accepted, started, done, busy>>
+  /\ UNCHANGED <<queue, idle, cw, woken, nextW, wgot, wtask, wsub, ci, cst, csamp, accepted, started, done, busy>>
   /\ Log(w, "W_Head")
 
 \* pool.getTask.kill -> pool.worker.exit | pool.getTask.pop : Pop under queueLock
@@ -130,34 +138,29 @@ W_AfterWake(w) ==
   /\ UNCHANGED <<queue, wmap, kill, cw, woken, nextW, wdec, wgot, wtask, wsub, ci, cst, csamp, accepted, started, done, busy>>
   /\ Log(w, "W_AfterWake")
 
-\* AddTask, first half: Push under queueLock (-> pool.addTask.unlocked)
-PushEffect(t) == /\ queue' = Append(queue, t) /\ accepted' = accepted \cup {t}
+\* AddTask: Push and Signal in one critical section of the queue lock (the lock of the condition)
+AddTaskEffect(t) == /\ queue' = Append(queue, t) /\ accepted' = accepted \cup {t} /\ SignalEffect
 
-\* task.start -> pool.addTask.unlocked (first child pushed) | task.end
+\* task.start -> task.child (the task is about to submit its first child) | task.end
 W_TStart(w) ==
   /\ wpc[w] = "tstart"
   /\ started' = [started EXCEPT ![wtask[w]] = @ + 1]
   /\ IF Children[wtask[w]] = <<>>
-       THEN /\ wpc' = [wpc EXCEPT ![w] = "tend"] /\ UNCHANGED <<queue, accepted, wsub>>
-       ELSE /\ PushEffect(Children[wtask[w]][1])
-            /\ wsub' = [wsub EXCEPT ![w] = 1]
-            /\ wpc' = [wpc EXCEPT ![w] = "unlocked"]
-  /\ UNCHANGED <<wmap, idle, kill, cw, woken, nextW, wdec, wgot, wtask, ci, cst, csamp, done, busy>>
+       THEN /\ wpc' = [wpc EXCEPT ![w] = "tend"] /\ UNCHANGED wsub
+       ELSE /\ wsub' = [wsub EXCEPT ![w] = 1] /\ wpc' = [wpc EXCEPT ![w] = "tchild"]
+  /\ UNCHANGED <<queue, accepted, cw, woken, wmap, idle, kill, nextW, wdec, wgot, wtask, ci, cst, csamp, done, busy>>
   /\ Log(w, "W_TStart")
 
-\* pool.addTask.unlocked -> (Signal) -> next child pushed | task.end
-W_Unlocked(w) ==
-  /\ wpc[w] = "unlocked"
-  /\ SignalEffect
+\* task.child -> AddTask(child) -> task.child (next child) | task.end
+W_TChild(w) ==
+  /\ wpc[w] = "tchild"
   /\ LET ch == Children[wtask[w]] IN
-     IF wsub[w] < Len(ch)
-       THEN /\ PushEffect(ch[wsub[w] + 1])
-            /\ wsub' = [wsub EXCEPT ![w] = @ + 1]
-            /\ UNCHANGED wpc
-       ELSE /\ wpc' = [wpc EXCEPT ![w] = "tend"]
-            /\ UNCHANGED <<queue, accepted, wsub>>
+     /\ AddTaskEffect(ch[wsub[w]])
+     /\ IF wsub[w] < Len(ch)
+          THEN /\ wsub' = [wsub EXCEPT ![w] = @ + 1] /\ UNCHANGED wpc
+          ELSE /\ wpc' = [wpc EXCEPT ![w] = "tend"] /\ UNCHANGED wsub
   /\ UNCHANGED <<wmap, idle, kill, nextW, wdec, wgot, wtask, ci, cst, csamp, started, done, busy>>
-  /\ Log(w, "W_Unlocked")
+  /\ Log(w, "W_TChild")
 
 \* task.end -> pool.worker.head
 W_TEnd(w) ==
@@ -178,7 +181,7 @@ W_Exit(w) ==
   /\ Log(w, "W_Exit")
 
 WorkerStep(w) == \/ W_Head(w) \/ W_Kill(w) \/ W_Pop(w) \/ W_IdleReg(w) \/ W_Wake(w)
-                 \/ W_AfterWake(w) \/ W_TStart(w) \/ W_Unlocked(w) \/ W_TEnd(w) \/ W_Exit(w)
+                 \/ W_AfterWake(w) \/ W_TStart(w) \/ W_TChild(w) \/ W_TEnd(w) \/ W_Exit(w)
 
 (* ---- clients ----------------------------------------------------------- *)
 Op(c) == Script[c][ci[c]]
@@ -197,25 +200,19 @@ ToIdleWait(c) ==
     THEN /\ cst' = [cst EXCEPT ![c] = "idlewait"] /\ UNCHANGED ci
     ELSE NextOp(c)
 
+\* AddTask(t)
 C_Add(c) ==
   /\ HasOp(c) /\ cst[c] = "ready" /\ Op(c).op = "add"
-  /\ PushEffect(Op(c).t)
-  /\ cst' = [cst EXCEPT ![c] = "unlocked"]
-  /\ UNCHANGED <<wmap, idle, kill, cw, woken, nextW, wpc, wdec, wgot, wtask, wsub, ci, csamp, started, done, busy>>
-  /\ Log(c, "C_Add")
-
-\* AddTask second half: Signal
-C_AddSignal(c) ==
-  /\ HasOp(c) /\ cst[c] = "unlocked"
-  /\ SignalEffect
+  /\ AddTaskEffect(Op(c).t)
   /\ NextOp(c)
-  /\ UNCHANGED <<queue, wmap, idle, kill, nextW, wpc, wdec, wgot, wtask, wsub, csamp, accepted, started, done, busy>>
-  /\ Log(c, "C_AddSignal")
+  /\ UNCHANGED <<wmap, idle, kill, nextW, wpc, wdec, wgot, wtask, wsub, csamp, started, done, busy>>
+  /\ Log(c, "C_Add")
 
 \* SetWorkerCount(n, wait): read the count, then grow / start shrinking / nothing
 C_Set(c) ==
   /\ HasOp(c) /\ cst[c] = "ready" /\ Op(c).op = "set"
-  /\ LET n == Op(c).n  wc == Cardinality(wmap) IN
+  /\ LET n == Op(c).n  wc == Cardinality(wmap)
+         k0 == IF ResizeFix /\ kill > 0 THEN 0 ELSE kill IN     \* an unfinished stop request is cancelled
      IF wc < n THEN
           /\ nextW + (n - wc) - 1 <= MaxW
           /\ kill' = 0
@@ -227,8 +224,8 @@ C_Set(c) ==
           /\ kill' = wc - n
           /\ cst' = [cst EXCEPT ![c] = "killset"]
           /\ UNCHANGED <<wmap, wpc, nextW, ci>>
-     ELSE /\ ToIdleWait(c)
-          /\ UNCHANGED <<wmap, wpc, nextW, kill>>
+     ELSE /\ ToIdleWait(c) /\ kill' = k0
+          /\ UNCHANGED <<wmap, wpc, nextW>>
   /\ UNCHANGED <<queue, idle, cw, woken, wdec, wgot, wtask, wsub, csamp, accepted, started, done, busy>>
   /\ Log(c, "C_Set")
 
@@ -317,7 +314,7 @@ C_JoinSample(c) ==
   /\ UNCHANGED <<queue, wmap, idle, kill, nextW, wpc, wdec, wgot, wtask, wsub, accepted, started, done, busy>>
   /\ Log(c, "C_JoinSample")
 
-ClientStep(c) == \/ C_Add(c) \/ C_AddSignal(c) \/ C_Set(c) \/ C_SetBroadcast(c)
+ClientStep(c) == \/ C_Add(c) \/ C_Set(c) \/ C_SetBroadcast(c)
                  \/ C_SetAfterBroadcast(c) \/ C_SetSample(c) \/ C_SetGrown(c) \/ C_SetIdleWait(c)
                  \/ C_WaitAll(c) \/ C_WaitAllSample(c) \/ C_JoinAll(c) \/ C_JoinSet(c) \/ C_JoinSample(c)
 
